@@ -6,7 +6,7 @@ from .base import Verdict, sig_of, tagged, crash_check, cb_paths
 
 ID = "C06"
 LEVEL = "fault_enumeration"
-RUNS = (6000, 150000)
+RUNS = (4000, 150000)
 RULE = ("one seeded tree of C01 read through one of the four callback entry points; the veto is injected at every consulted file in "
         "turn (complete single-fault enumeration per tree) plus seeded subsets (only main, only a masked drop-in, only the last file, "
         "random subset); each execution is judged on its recorded event history; non-trivial = tree with >= 2 consulted files; "
@@ -55,6 +55,13 @@ def one_plan(world, cb, init):
     read = world["read"]
     ops = gen.prologue_ops(read) if read["ep"] != "readFile" else []
     ops += gen.layered_read_ops(read, cb=cb, init=init)
+    if cb:
+        # nothing of the refused call may survive into the next one: the same read again, everything accepted
+        again = gen.layered_read_ops(read, cb={}, init=init)
+        for o in again:
+            if "tag" in o:
+                o["tag"] += "_again"
+        ops += again
     return {"cfg": world["cfg"], "tree": gen.tree_plan(world["nodes"]), "ops": ops}
 
 
@@ -101,7 +108,7 @@ def check(world, plans, results):
         plan = plans[k]
         vs = [] if k == 1 else sets[k - 2]
         rd = tagged(plan, res, "read")
-        read_idx = [i for i, op in enumerate(plan["ops"]) if op.get("tag") == "read"][0]
+        read_idx = [i for i, op in enumerate(plan["ops"]) if op.get("tag") == "read"][0]   # the vetoed read, not the one after it
         evs = [e for e in res.get("events", []) if e[1] == read_idx]
         # (i) accepted before opened
         accepted = set()
@@ -135,6 +142,12 @@ def check(world, plans, results):
                 break
         if rd["rc"] in (0, 21) and seq != exp:
             v.fail("cb:sequence", "plan %d (veto %r): callback saw %r, expected %r" % (k, vs, seq, exp))
+        # state left by the refused call must not leak into the next call
+        if vs:
+            r2 = tagged(plan, res, "read_again")
+            if r2 is not None:
+                if r2["rc"] != ra["rc"] or canon(strip_volatile(tagged(plan, res, "dump_again"))) != canon(strip_volatile(tagged(plans[1], acc, "dump"))):
+                    v.fail("veto:aftermath", "plan %d: after the refused call the same read with everything accepted returns rc=%r (expected %r) or a different configuration" % (k, r2["rc"], ra["rc"]))
         # (iv) one rejection yields nothing
         if vs:
             if rd["rc"] != 21:
